@@ -10,9 +10,9 @@ what a caller observes whatever else the function does:
   attribute of ``self`` of container type initialised elsewhere: the caller's
   dict loses a key, a shared list keeps growing between runs, a constant handed
   out to every caller is filled by one of them;
-* a new ``except`` clause that neither re-raises nor records the error around
-  calls the function already made: an exception that used to propagate is
-  swallowed and execution continues with a default.
+* (recorded only, not claimed: a new ``except`` clause that neither re-raises nor records
+  the error - whether replacing a crash by a continuation breaks a property depends on the
+  crash.)
 
 Per function the reference (``reference/mutations.json``) keeps the set of
 (root, operation kind) it updates in place and the set of (exception class,
@@ -124,6 +124,11 @@ def mutations_of(pm, f):
                 isinstance(n.targets[0], ast.Name) and n.targets[0].id not in al:
             local_fresh.add(n.targets[0].id)
     out = set()
+    from .memo import memo_sites
+    try:
+        memo_tables = {site[0] for site in memo_sites(pm, f)}
+    except Exception:
+        memo_tables = set()
 
     def note(target_expr, kind):
         r = _root_of(target_expr)
@@ -147,6 +152,8 @@ def mutations_of(pm, f):
                     continue
                 out.add('param:%s|%s' % (root, kind))
         elif r in mod_level and r not in f.params:
+            if r in memo_tables:
+                return      # a memo table: decided by the memo-key rule
             out.add('module:%s|%s' % (r, kind))
     for n in own_nodes(f.node):
         if isinstance(n, ast.Subscript) and isinstance(n.ctx, (ast.Store, ast.Del)):
@@ -311,11 +318,11 @@ def run(pm, ctx, rule, patterns):
                   key='%s|%s|mutates|%s' % (rule, q, (new_m or [''])[0].split('|')[0]))
         cur_h = handlers_of(f)
         new_h = [h for h in cur_h if h.endswith('|swallow') and h not in r['handlers']]
-        ctx.check(rule, not new_h, '%s: exception handlers as on the confirmed tree' % f.short,
-                  f.loc,
-                  msg='%s has a new handler that swallows %s: an error that used to propagate is '
-                      'dropped and execution continues' % (
-                          f.short, ', '.join(h.split('|')[0] for h in new_h)),
-                  key='%s|%s|swallows|%s' % (rule, q, (new_h or [''])[0].split('|')[0]))
+        # a new swallowing handler replaces a crash by a continuation; whether that breaks the
+        # property depends on what the crash was (a guard written as try/except is the same as
+        # the guard): recorded, not claimed
+        if new_h:
+            ctx.note('%s: %s has a new handler that swallows %s (not claimed)' % (
+                rule, f.short, ', '.join(h.split('|')[0] for h in new_h)))
     ctx.extra['%s_functions' % rule] = n
     ctx.floor(rule, n, 1, 'functions compared with the reference')
